@@ -163,9 +163,6 @@ let check_seq id (in_dim : int) calls xrs distill splits : unit =
            end
          | IErrType | IPanic ->
            fail "accept" (Printf.sprintf "call %s on %s: %s (model: %s)" (Sexp.to_string sc) (arch_s pre) (ires_s ires) (mres_s mres)));
-        (* post-state = model post-state (rejected calls leave the architecture untouched) *)
-        if !ok && not (arch_eq post mpost) then
-          fail "state" (Printf.sprintf "after %s on %s: impl %s model %s" (Sexp.to_string sc) (arch_s pre) (arch_s post) (arch_s mpost));
         (* the invariant, directly on the implementation's state *)
         (match layers_out_dim post.ar_in (arch_layers post) with
          | Some d when d = post.ar_cur && shapes_after post.ar_in (arch_layers post) = arch_shapes post -> ()
@@ -173,6 +170,9 @@ let check_seq id (in_dim : int) calls xrs distill splits : unit =
            fail "invariant" (Printf.sprintf "after %s: current_shape=%s recorded=%s but the queued layers %s on input %s have output dimension %s, running %s"
                                (Sexp.to_string sc) (nat_s post.ar_cur) (nats_s (arch_shapes post)) (layers_s (arch_layers post))
                                (nat_s post.ar_in) (onat_s od) (nats_s (shapes_after post.ar_in (arch_layers post)))));
+        (* post-state = model post-state (rejected calls leave the architecture untouched) *)
+        if !ok && not (arch_eq post mpost) then
+          fail "state" (Printf.sprintf "after %s on %s: impl %s model %s" (Sexp.to_string sc) (arch_s pre) (arch_s post) (arch_s mpost));
         st := post
       | _ -> raise (Parse_error "c")) calls;
   let final = !st in
